@@ -28,10 +28,10 @@ RANGES = {"u8": (0, 255), "u16": (0, 65535), "u32": (0, 2**32 - 1), "u64": (0, 2
           "NonZeroU8": (1, 255), "NonZeroI8": (-128, 127), "u128": (0, 2**64 - 1), "i128": (-2**63, 2**64 - 1),
           "NonZeroU16": (1, 65535), "NonZeroU64": (1, 2**64 - 1), "NonZeroI64": (-2**63, 2**63 - 1), "NonZeroI128": (-2**63, 2**64 - 1)}
 
-KEYPOOL = {"String": ["a", "b", "k", "key", "", "01"], "u8": ["0", "1", "7", "255"], "i32": ["-1", "0", "5", "12"],
-           "bool": ["true", "false"], "char": ["a", "b", "z"]}
-BADKEYS = {"u8": ["x", "256", "-1", "", "1x", "a\"b", "back\\slash"], "i32": ["a", "9999999999", "", "q\"q"], "bool": ["yes", "True", "", "t\"rue"],
-           "char": ["ab", "", "\"\""], "String": []}
+KEYPOOL = {"String": ["a", "b", "k", "key", "", "01", " a", "a "], "u8": ["0", "1", "7", "255"], "i32": ["-1", "0", "5", "12"],
+           "bool": ["true", "false"], "char": ["a", "b", "z", " "]}
+BADKEYS = {"u8": ["x", "256", "-1", "", "1x", "a\"b", "back\\slash", "1 ", " 1"], "i32": ["a", "9999999999", "", "q\"q", " 5"],
+           "bool": ["yes", "True", "", "t\"rue", " true"], "char": ["ab", "", "\"\"", "a "], "String": []}
 COLLIDE = {"u8": [("1", "01"), ("7", "+7")], "i32": [("5", "+5"), ("0", "-0")]}
 
 
@@ -97,9 +97,14 @@ def eff_key_guess(f, ra):
 
 
 class PayloadGen:
-    def __init__(self, rng, extra_defs=()):
+    def __init__(self, rng, extra_defs=(), golden=False, numbers=None):
         self.rng = rng
         self.defs = {d["name"]: d for d in list(C.DEFS) + list(extra_defs)}
+        # golden: every field present under its effective key, the right tag, no stray member, nothing null (with p = 0 the payload
+        # is meant to succeed); numbers: the integer leaves to use (4 passes every function of the catalogue, 2 is rejected by the
+        # `validate` functions only, 3 by the conversions)
+        self.golden = golden
+        self.numbers = numbers
 
     # ---- valid-ish values with a per-node fault probability p --------------------------------
     def wrong(self, avoid):
@@ -115,7 +120,7 @@ class PayloadGen:
         if name == "unit":
             return vnull() if r.random() >= p else self.wrong({"null"})
         if name == "String":
-            return vstr(r.choice(["", "a", "hello", "é", "a,b", "x!"])) if r.random() >= p else self.wrong({"str"})
+            return vstr(r.choice(["", "a", "hello", "é", "a,b", "x!", "why?"])) if r.random() >= p else self.wrong({"str"})
         if name == "char":
             if r.random() >= p: return vstr(r.choice(["a", "é", "z"]))
             return r.choice([vstr(""), vstr("ab"), vstr("abc"), self.wrong({"str"})])
@@ -124,7 +129,7 @@ class PayloadGen:
             return self.wrong({"float", "int", "neg"})
         lo, hi = RANGES[name]
         if r.random() >= p:
-            x = r.choice([lo, hi, 0, 1, 2, 5, r.randint(lo, hi)])
+            x = r.choice(self.numbers) if self.numbers else r.choice([lo, hi, 0, 1, 2, 5, r.randint(lo, hi)])
             if name.startswith("NonZero") and x == 0: x = 1
             return vnum(x)
         kind = r.random()
@@ -156,7 +161,7 @@ class PayloadGen:
                 return vseq([self.gen(ts[i % len(ts)], p, depth + 1) for i in range(n)])
             return vseq([self.gen(t, p, depth + 1) for t in ts])
         if k == "opt":
-            if r.random() < 0.3: return vnull()
+            if r.random() < 0.3 and not self.golden: return vnull()
             return self.gen(ty[1], p, depth + 1)
         if k == "box":
             return self.gen(ty[1], p, depth + 1)
@@ -176,6 +181,8 @@ class PayloadGen:
             if ty[1] == "u8":
                 return vstr(r.choice(["", "1", "1,2", "1,,2", ",3,", "255"] if r.random() >= p else ["x", "1,x", "256", "1, 2"]))
             return vstr(r.choice(["", "a", "a,b", "a,,b", ",", "a,b,c"]))
+        if k == "jvalue" and self.golden:
+            return r.choice([vnull(), vint(1), vneg(-3), vfloat(0.5), vstr("s"), vseq([vint(1), vseq([])]), vmap([("a", vmap([("b", vnull())]))])])
         if k == "jvalue":
             return r.choice([vnull(), vint(1), vneg(-3), vfloat(0.5), vstr("s"), vseq([vint(1), vseq([])]), vmap([("a", vmap([("b", vnull())]))]),
                              vint(2**64 - 1), vneg(-2**63),
@@ -191,6 +198,9 @@ class PayloadGen:
     def fields_members(self, fields, ra_hint, p, depth, deny):
         r = self.rng
         ms = []
+        if self.golden:
+            d0 = {"kind": "struct", "rename_all": ra_hint}
+            return [(effkey(d0, f), self.gen(f["from"]["ty"] if f.get("from") else f["ty"], p, depth + 1)) for f in fields if not f.get("skip")]
         for f in fields:
             keys = eff_key_guess(f, ra_hint)
             present = r.random() < 0.8
@@ -205,12 +215,21 @@ class PayloadGen:
 
     def gen_def(self, d, p, depth):
         r = self.rng
+        if d["kind"] == "struct" and d.get("cfrom"):
+            return self.gen(d["cfrom"]["ty"], p, depth)          # the payload is the intermediate type's, the function makes the struct
         if d["kind"] == "struct":
             if r.random() < p * 0.3: return self.wrong({"map"})
             ms = self.fields_members(d["fields"], d["rename_all"], p, depth, d["deny"])
             r.shuffle(ms)
             return vmap(dedup(ms))
         # enums
+        if self.golden:
+            v = r.choice(d["variants"] if d["tag"] else [x for x in d["variants"] if not x["fields"]])
+            i = G.unraw(v["ident"])
+            vn = v["rename"] if v["rename"] is not None else (camel(i) if d.get("rename_all") == "camelCase" else (i.lower() if d.get("rename_all") == "lowercase" else i))
+            if not d["tag"]:
+                return vstr(vn)
+            return vmap(dedup(self.fields_members(v["fields"] or [], v["rename_all"], p, depth, d["deny"]) + [(d["tag"], vstr(vn))]))
         if not d["tag"]:
             names = []
             for v in d["variants"]:
